@@ -329,6 +329,8 @@ func (e *c01env) run(r Row) (accepted bool, errText string) {
 			err = gtb.SevValidate(ctx, attWith(eb), &gtb.SevValidateOptions{RootsOfTrust: roots, Now: now})
 		case "SevValidate_getter":
 			err = gtb.SevValidate(ctx, attWith(nil), &gtb.SevValidateOptions{RootsOfTrust: roots, Now: now, Getter: &MapGetter{Body: map[string][]byte{snpURL(e.snpMeas): eb}}})
+		case "SevValidate_getter_then_genuine":
+			err = gtb.SevValidate(ctx, attWith(nil), &gtb.SevValidateOptions{RootsOfTrust: roots, Now: now, Getter: &SeqGetter{Bodies: [][]byte{eb, e.genuineBytes}}})
 		case "TdxValidate_opts":
 			err = gtb.TdxValidate(ctx, e.m.QuoteBytes, &gtb.TdxValidateOptions{Endorsement: en, RootsOfTrust: roots, Now: now})
 		case "cli_verify", "cli_sev_validate", "cli_tdx_validate", "cli_sev_plus_genuine_extra":
